@@ -255,11 +255,11 @@ def both_scenario(rng, sid):
 
 COUNTS = {
     #              quick  thorough
-    "tcp":        (1200, 9000),
-    "tcp_heavy":  (600,  5000),
-    "smallread":  (800,  6000),
-    "reuse":      (1200, 8000),
-    "both":       (600,  4000),
+    "tcp":        (1000, 9000),
+    "tcp_heavy":  (500,  5000),
+    "smallread":  (600,  6000),
+    "reuse":      (1000, 8000),
+    "both":       (500,  4000),
 }
 
 
